@@ -108,6 +108,66 @@ class ClassInfo:
         return '<Class %s>' % self.fq
 
 
+class _PolarityNormaliser(ast.NodeTransformer):
+    """One spelling for tests: `not not x` -> `x`; `not (a is b)` -> `a is not b`
+    (likewise in / == and their negations); a two-armed `if not c: A else: B`
+    (statement or conditional expression) -> `if c: B else: A`.  Rules are
+    written against the positive form and need not know the other."""
+    FLIP = {ast.Is: ast.IsNot, ast.IsNot: ast.Is, ast.In: ast.NotIn,
+            ast.NotIn: ast.In, ast.Eq: ast.NotEq, ast.NotEq: ast.Eq}
+
+    def visit_UnaryOp(self, n):
+        self.generic_visit(n)
+        if isinstance(n.op, ast.Not):
+            x = n.operand
+            if isinstance(x, ast.UnaryOp) and isinstance(x.op, ast.Not) and \
+                    self._boolean(x.operand):
+                return x.operand
+            if isinstance(x, ast.Compare) and len(x.ops) == 1 and \
+                    type(x.ops[0]) in self.FLIP:
+                x.ops = [self.FLIP[type(x.ops[0])]()]
+                return x
+        return n
+
+    @staticmethod
+    def _boolean(e):
+        return isinstance(e, (ast.Compare, ast.BoolOp)) or (
+            isinstance(e, ast.UnaryOp) and isinstance(e.op, ast.Not)) or (
+            isinstance(e, ast.Call) and isinstance(e.func, ast.Name) and
+            e.func.id in ('isinstance', 'callable', 'hasattr', 'any', 'all',
+                          'bool', 'issubclass'))
+
+    NEG = (ast.IsNot, ast.NotIn, ast.NotEq)
+
+    def _strip(self, test):
+        """The positive test if `test` is a negation (`not x`, `a != b`, `a is
+        not b`, `a not in b`), else None."""
+        if isinstance(test, ast.UnaryOp) and isinstance(test.op, ast.Not):
+            return test.operand
+        if isinstance(test, ast.Compare) and len(test.ops) == 1 and isinstance(
+                test.ops[0], self.NEG):
+            test.ops = [self.FLIP[type(test.ops[0])]()]
+            return test
+        return None
+
+    def visit_If(self, n):
+        self.generic_visit(n)
+        if n.orelse:
+            inner = self._strip(n.test)
+            if inner is not None:
+                n.test = inner
+                n.body, n.orelse = n.orelse, n.body
+        return n
+
+    def visit_IfExp(self, n):
+        self.generic_visit(n)
+        inner = self._strip(n.test)
+        if inner is not None:
+            n.test = inner
+            n.body, n.orelse = n.orelse, n.body
+        return n
+
+
 class Module:
     def __init__(self, project, name, path, rel):
         self.project, self.name, self.path, self.rel = project, name, path, rel
@@ -119,6 +179,7 @@ class Module:
             self.tree = ast.parse(self.src, filename=path)
         except SyntaxError as ex:
             raise AnalysisError('cannot parse %s: %s' % (rel, ex))
+        _PolarityNormaliser().visit(self.tree)
         self.is_pkg = os.path.basename(path) == '__init__.py'
         self.imports = {}  # local name -> ('mod', dotted) | ('obj', dotted_mod, attr)
         self.functions = {}  # top-level name -> FuncInfo
